@@ -158,6 +158,11 @@ def projection_observations(prg, inputs):
     return ret
 
 
+def _collect(node, name):
+    from ngo.utils.ast import collect_ast
+    return collect_ast(node, name)
+
+
 def cleanup_observations(prg, inputs):
     """one request per top-level body literal `cleanup` deleted because another body literal supersedes it:
     (pre, rule before, rule after, post, :- p., :- q.) as s-expression texts, in the order of the deletions, each against the
@@ -224,8 +229,16 @@ def cleanup_observations(prg, inputs):
                 after2 = stm.update(head=head2, body=body2[:k] + body2[k + 1:])
                 pre = apart_prog(current[:i])
                 post = apart_prog(current[i + 1:])
-                obs.append((ser.prog(pre), ser.stm(before2), ser.stm(after2), ser.prog(post),
-                            ser.stm(Rule(LOC, false, [body2[j]])), ser.stm(Rule(LOC, false, [body2[k]])), f"{lhs} supersedes {rhs} in {stm}"))
+                same_pred = (lhs.atom.symbol.name, len(lhs.atom.symbol.arguments)) == (rhs.atom.symbol.name, len(rhs.atom.symbol.arguments))
+                if same_pred:
+                    # `p(X), p(_)`: a strong equivalence, no context needed; F = the renamed-apart anonymous variables of q
+                    fresh = sorted({v.name for v in _collect(body2[k], "Variable") if v.name.startswith("_#")})
+                    obs.append(("anon", ser.stm(before2), ser.stm(after2), ser.stm(Rule(LOC, false, [body2[j]])),
+                                ser.stm(Rule(LOC, false, [body2[k]])), "(" + " ".join(ser.q(v) for v in fresh) + ")",
+                                f"{lhs} supersedes its weaker copy {rhs} in {stm}"))
+                else:
+                    obs.append((ser.prog(pre), ser.stm(before2), ser.stm(after2), ser.prog(post),
+                                ser.stm(Rule(LOC, false, [body2[j]])), ser.stm(Rule(LOC, false, [body2[k]])), f"{lhs} supersedes {rhs} in {stm}"))
             except Exception:  # noqa - outside the mirror
                 other += 1
         current[i] = out
@@ -469,8 +482,12 @@ def run(rng, n_gen, corpus_limit=None, kinds=None) -> dict:
         cobs, cother = cleanup_observations(_preprocess(_parse(text)), inputs) if want("cleanup") else ([], 0)
         hist["cleanup: deletions inside conditions or objectives (outside the theorem)"] += cother
         for pre, before, after, post, pr, qr, what in cobs:
-            reqs.append(f'(sem_implied_cond {pre} {before} {after} {post} {pr} {qr})')
-            meta.append(("cleanup", text, what, 1))
+            if pre == "anon":
+                reqs.append(f'(sem_anon_cond {before} {after} {post} {pr} {qr})')   # (before, after, :- p., :- q., F)
+                meta.append(("cleanup-copy", text, what, 1))
+            else:
+                reqs.append(f'(sem_implied_cond {pre} {before} {after} {post} {pr} {qr})')
+                meta.append(("cleanup", text, what, 1))
         for cname, ptext, pairs in (domain_observations(_preprocess(_parse(text)), inputs) if want("domains") else []):
             reqs.append(f'(sem_dom_cond {ptext} ({pairs}))')
             meta.append(("domains", text, cname, 1))
